@@ -18,7 +18,7 @@ RULE = ("declaration histories of 4-22 steps with faults injected at random posi
         "quantum without reference unit, invalid currency parameters), then declarations that "
         "re-use the symbols of the rejected steps, then the full observation vector: Unit(sym) "
         "for every symbol ever mentioned, cls.units() of every type, the generic factory on "
-        "'1 sym'.  Every history is run twice in fresh processes: as given, and with the "
+        "'1 sym', and products / quotients of the units involved in rejected steps.  Every history is run twice in fresh processes: as given, and with the "
         "rejected steps left out (the twin); the oracle demands identical observations and "
         "identical outcomes of all later steps.  The model runs the history as given.  "
         "Rejected updates of a money converter are covered by C11 (C11_failed_update_unchanged). "
@@ -45,7 +45,21 @@ def gen_cases(rng, tier):
                       'def': ['qty', ['int', '3/1'], base['ref']]}
                 if w.apply(dd) is None:
                     late.append(dd)
-        cases.append({'dm': rng.choice(W.MODES), 'pre': False, 'script': script, 'hist': [],
+        # products / quotients evaluated after the history: a rejected unit must not be
+        # reachable through the definition directory either
+        probes = []
+        for d, e in zip(script, exp):
+            if d['d'] == 'derive' and len(d['units']) == 2 and d['cls'] in w.classes \
+                    and w.classes[d['cls']]['cdef'] and all(u in w.units for u in d['units']):
+                es = [x for _, x in w.classes[d['cls']]['cdef']]
+                if len(es) == 2 and es[0] == 1 and es[1] in (1, -1):
+                    probes.append(['mul' if es[1] == 1 else 'div',
+                                   ['q', ['int', '6/1'], d['units'][0]], ['q', ['int', '2/1'], d['units'][1]]])
+        us = [s for s in w.order if not w.units[s].get('sf')]
+        for _ in range(3):
+            if len(us) >= 2:
+                probes.append([rng.choice(['mul', 'div']), ['u', rng.choice(us)], ['u', rng.choice(us)]])
+        cases.append({'dm': rng.choice(W.MODES), 'pre': False, 'script': script, 'hist': probes[:8],
                       'late': late, 'q': C15._dirq(w, script + late)})
     return cases
 
@@ -58,7 +72,8 @@ def impl_run(case):
     tag, twin = core.run_isolated(R.impl_run, dict(case, script=keep))
     if tag != 'ok':
         raise RuntimeError(twin)
-    full['twin'] = {'res': twin['res'], 'late': twin['late'], 'steps': twin['steps']}
+    full['twin'] = {'res': twin['res'], 'late': twin['late'], 'steps': twin['steps'],
+                    'hist': twin['hist']}
     return full
 
 
@@ -75,6 +90,10 @@ def oracle(case, r):
                 f"{[s and s['e'] for s in r['late']]} vs {[s and s['e'] for s in tw['late']]} without them")
     if any(s is not None for s in r['late']):
         return f"a symbol of a rejected declaration is not available afterwards: {r['late']}"
+    if tw['hist'] != r['hist']:
+        diff = [(m, a, b) for m, a, b in zip(case['hist'], r['hist'], tw['hist']) if a != b]
+        return (f"a rejected declaration changed a later result: {diff[0][0]} gives {diff[0][1]} "
+                f"but {diff[0][2]} when the rejected steps are left out")
     if tw['res'] != r['res']:
         a, b = r['res'], tw['res']
         for k in ('us', 'cs', 'parse'):
